@@ -160,6 +160,39 @@ impl MsgRec {
   }
 }
 
+/// For harnesses that ask WHO gets WHICH sample (not what the bytes are — C14/C05): the DATA /
+/// DATAFRAG builders are replaced by recorders of the sample's sequence number, so that
+/// send_cache_change's decision logic runs without the message builder (which, together with
+/// a Writer object, did not fit in 14 GB).
+pub(crate) static mut BUILT_DATA_SN: i64 = 0;
+#[cfg(kani)]
+pub(crate) fn stub_data_msg(
+  this: MessageBuilder,
+  cache_change: &CacheChange,
+  _reader_entity_id: EntityId,
+  _writer_guid: GUID,
+  _endianness: Endianness,
+  _security_plugins: Option<&SecurityPluginsHandle>,
+) -> MessageBuilder {
+  unsafe { BUILT_DATA_SN = i64::from(cache_change.sequence_number) };
+  this
+}
+#[cfg(kani)]
+pub(crate) fn stub_data_frag_msg(
+  this: MessageBuilder,
+  cache_change: &CacheChange,
+  _reader_entity_id: EntityId,
+  _writer_guid: GUID,
+  _fragment_number: FragmentNumber,
+  _fragment_size: u16,
+  _sample_size: u32,
+  _endianness: Endianness,
+  _security_plugins: Option<&SecurityPluginsHandle>,
+) -> MessageBuilder {
+  unsafe { BUILT_DATA_SN = i64::from(cache_change.sequence_number) };
+  this
+}
+
 pub(crate) const MAXMSG: usize = 6;
 pub(crate) struct Out {
   pub msgs: [MsgRec; MAXMSG],
@@ -205,6 +238,13 @@ pub(crate) fn stub_send_message_to_readers(
 ) {
   let mut r = MsgRec::empty();
   r.absorb(&message);
+  unsafe {
+    if BUILT_DATA_SN != 0 {
+      // the DATA/DATAFRAG builder was replaced by a recorder (writer_harness_nobuilder!)
+      r.data_sn = BUILT_DATA_SN;
+      BUILT_DATA_SN = 0;
+    }
+  }
   let mut steps = 0;
   while steps < 3 {
     if let Some(rp) = readers.next() {
@@ -471,6 +511,37 @@ macro_rules! writer_harness {
       kani,
       kani::stub(Writer::send_message_to_readers, stub_send_message_to_readers),
       kani::stub(Writer::send_status, stub_send_status),
+      kani::stub(Writer::send_participant_status, stub_send_participant_status),
+      kani::stub(crate::dds::statusevents::StatusChannelSender::try_send, stub_status_try_send),
+      kani::stub(mio_extras::channel::Receiver::try_recv, stub_cmd_try_recv),
+      kani::stub(crate::structure::time::Timestamp::now, crate::structure::time::verif_harness_env_time::stub_now),
+      kani::stub(std::time::Instant::now, crate::structure::time::verif_harness_env_time::stub_instant_now),
+      kani::stub(crate::mio_source::make_poll_channel, crate::mio_source::verif_harness_env_mio::stub_make_poll_channel),
+      kani::stub(crate::mio_source::PollEventSender::send, crate::mio_source::verif_harness_env_mio::stub_send),
+      kani::stub(crate::mio_source::PollEventSource::drain, crate::mio_source::verif_harness_env_mio::stub_drain),
+      kani::stub(std::fmt::format, crate::verif_env::stub_format),
+      kani::stub(std::vec::Vec::push, crate::verif_env::stub_vec_push),
+      kani::stub(alloc::vec::from_elem, crate::verif_env::stub_vec_from_elem)
+    )]
+    #[cfg_attr(verif_replay, test)]
+    fn $name() {
+      vk::begin(stringify!($name));
+      $body;
+      vk::end();
+    }
+  };
+}
+
+macro_rules! writer_harness_nobuilder {
+  ($(#[$m:meta])* fn $name:ident($unwind:expr) $body:block) => {
+    $(#[$m])*
+    #[cfg_attr(kani, kani::proof, kani::unwind($unwind))]
+    #[cfg_attr(
+      kani,
+      kani::stub(Writer::send_message_to_readers, stub_send_message_to_readers),
+      kani::stub(Writer::send_status, stub_send_status),
+      kani::stub(crate::rtps::message::MessageBuilder::data_msg, stub_data_msg),
+      kani::stub(crate::rtps::message::MessageBuilder::data_frag_msg, stub_data_frag_msg),
       kani::stub(Writer::send_participant_status, stub_send_participant_status),
       kani::stub(crate::dds::statusevents::StatusChannelSender::try_send, stub_status_try_send),
       kani::stub(mio_extras::channel::Receiver::try_recv, stub_cmd_try_recv),
@@ -924,17 +995,16 @@ fn c04_single_reader_sample(7) {
 }
 
 /// The guard inside Writer::send_cache_change, driven directly: a sample written for one reader
-/// is sent only when the given target proxy IS that reader; with no target (the reader is not
-/// matched) or another reader's proxy nothing at all is transmitted.
-writer_harness! {
+/// is sent only when the given target proxy IS that reader (then to that reader alone); with no
+/// target (the reader is not matched) or another reader's proxy nothing at all is transmitted.
+/// DATA/DATAFRAG builders are recorders here (who gets which SN; bytes are C14/C05).
+writer_harness_nobuilder! {
 fn c04_single_reader_send_guard(7) {
   let mut rig = make_wrig(writer_qos(true, Some(policy::History::KeepAll), true));
   rig.match_reader(1, true);
   rig.match_reader(2, true);
   let _ = rig.take_out();
-  // (the positive case — target proxy is the reader: DATA to it alone — runs the whole
-  // message builder and did not fit in 14 GB; it is in c04_single_reader_sample, thorough tier)
-  let scenario = vk::range_u8(0, 1);
+  let scenario = vk::range_u8(0, 2);
   let single = match scenario {
     0 => reader_guid(3), // not matched
     _ => reader_guid(1),
@@ -945,21 +1015,34 @@ fn c04_single_reader_send_guard(7) {
     WriteOptionsBuilder::new().to_single_reader(single).build(),
     static_payload(1),
   );
-  let sent_something;
   match scenario {
     0 => {
-      let r = rig.writer.send_cache_change(&cc, false, None);
-      sent_something = rig.take_out().n > 0;
-      assert!(!sent_something && !r, "a sample written for an unmatched reader was transmitted");
+      let _ = rig.writer.send_cache_change(&cc, false, None);
+    }
+    1 => {
+      let other = rig.writer.readers.get(&reader_guid(2));
+      let _ = rig.writer.send_cache_change(&cc, false, other);
     }
     _ => {
-      let other = rig.writer.readers.get(&reader_guid(2));
-      let r = rig.writer.send_cache_change(&cc, false, other);
-      sent_something = rig.take_out().n > 0;
-      assert!(!sent_something && !r, "a sample written for reader 1 was transmitted on behalf of reader 2");
+      let target = rig.writer.readers.get(&reader_guid(1));
+      let _ = rig.writer.send_cache_change(&cc, false, target);
     }
   }
-  vk_cover!(!sent_something && scenario == 1);
+  let out = rig.take_out();
+  let mut data_to_r1 = false;
+  let mut data_to_r2 = false;
+  let mut i = 0;
+  while i < MAXMSG {
+    if i < out.n && out.msgs[i].data_sn == 1 {
+      data_to_r1 = data_to_r1 || out.msgs[i].to_r1;
+      data_to_r2 = data_to_r2 || out.msgs[i].to_r2;
+    }
+    i += 1;
+  }
+  assert!(!data_to_r2, "a sample written for one reader was transmitted to reader 2");
+  assert!(data_to_r1 == (scenario == 2), "single-reader sample must go to its reader when (and only when) that reader's proxy is the target");
+  vk_cover!(scenario == 2 && data_to_r1, "sent to its reader");
+  vk_cover!(scenario == 0, "unmatched target");
   core::mem::forget(cc);
   rig.finish();
 }
